@@ -239,6 +239,8 @@ def r6_reads_are_whole_and_direct(ctx):
 
 
 def run(ctx):
+    from . import C01
+    C01.r13_no_cancel_and_retry_of_framed_reads(ctx)
     r6_reads_are_whole_and_direct(ctx)
     r5_hash_of_the_configured_password(ctx)
     r1_construct_after_auth(ctx)
